@@ -28,12 +28,30 @@ var ctx = context.Background()
 // fakeClock: every Now() is one second later than the previous one.
 type fakeClock struct {
 	clock.Clock
-	n atomic.Int64
+	n         atomic.Int64
+	backwards bool
 }
 
 var epoch = time.Date(2022, 2, 2, 2, 2, 2, 0, time.UTC)
 
-func (c *fakeClock) Now() time.Time { return epoch.Add(time.Duration(c.n.Add(1)) * time.Second) }
+func (c *fakeClock) Now() time.Time {
+	k := c.n.Add(1)
+	if c.backwards {
+		// a clock being stepped back (time synchronisation, a simulation running in reverse): every reading is a second
+		// EARLIER than the one before. "The clock's current time" is still what the clock reads now.
+		k = -k
+	}
+	return epoch.Add(time.Duration(k) * time.Second)
+}
+
+// whether a world's clock runs backwards is a function of the case (so a saved case replays the same way)
+func stepsParity(steps []step) bool {
+	k := len(steps)
+	for _, s := range steps {
+		k += s.Op + s.Mode + s.Via
+	}
+	return k%2 == 1
+}
 func (c *fakeClock) peek() int64    { return c.n.Load() }
 
 // step is one operation; Via selects the Model API (0) or the gRPC servers (1).
@@ -75,8 +93,10 @@ func (w *world) clearedTo(call string, m *traits.ElectricMode) {
 	}
 }
 
-func newWorld() *world {
-	w := &world{clk: &fakeClock{Clock: clock.Real()}}
+func newWorld() *world { return newWorldClock(false) }
+
+func newWorldClock(backwards bool) *world {
+	w := &world{clk: &fakeClock{Clock: clock.Real(), backwards: backwards}}
 	w.m = electricpb.NewModel(electricpb.WithClock(w.clk))
 	w.srv = electricpb.NewModelServer(w.m)
 	return w
@@ -174,7 +194,10 @@ func (w *world) apply(s step) (string, error) {
 				}
 				break
 			}
-			if s.Extra {
+			if s.Extra && !modesBefore[id] {
+				// a retried conditional delete: the first attempt already removed the mode, the retry still says what it expects
+				dopts = append(dopts, resource.WithExpectedValue(&traits.ElectricMode{Id: id, Title: "what I saw"}))
+			} else if s.Extra {
 				dopts = append(dopts, resource.WithExpectedCheck(func(proto.Message) error { return nil }))
 			}
 			err = w.m.DeleteMode(id, dopts...)
@@ -253,6 +276,9 @@ func (w *world) apply(s step) (string, error) {
 					return "", fmt.Errorf("switching from %q to %q did not stamp a start time", activeBefore.GetId(), id)
 				}
 				tick := int64(got.StartTime.AsTime().Sub(epoch) / time.Second)
+				if w.clk.backwards {
+					tick = -tick // which reading of the clock the stamp is
+				}
 				if tick <= c0 || tick > c1 {
 					return "", fmt.Errorf("switching to %q stamped start time tick %d, the clock read (%d,%d] during the call", id, tick, c0, c1)
 				}
@@ -316,12 +342,12 @@ func modeIDs(modes []*traits.ElectricMode) []string {
 }
 
 func runSteps(steps []step) (nt bool, hist []string, err error) {
-	return runStepsOn(newWorld(), steps)
+	return runStepsOn(newWorldClock(stepsParity(steps)), steps)
 }
 
 // newConfiguredWorld builds the model from explicit configuration: initial modes (at most one of them normal).
 func newConfiguredWorld(normal []bool) *world {
-	w := &world{clk: &fakeClock{Clock: clock.Real()}}
+	w := &world{clk: &fakeClock{Clock: clock.Real(), backwards: len(normal)%2 == 1}}
 	var modes []*traits.ElectricMode
 	for i, n := range normal {
 		id := fmt.Sprintf("init-%d", i+1)
